@@ -324,8 +324,13 @@ def write_evidence(prop, tier, master, agg, extra_cov=None, n_viol=0):
         'coverage': cov, 'assumptions': list(getattr(prop, 'ASSUMPTIONS', [])),
         'wall_s': round(agg['wall_s'], 3), 'violations': int(n_viol),
     }
-    os.makedirs(os.path.join(VERIF, 'evidence'), exist_ok=True)
-    path = os.path.join(VERIF, 'evidence', prop.ID + '.json')
+    from .boot import REPO
+    evdir = os.path.join(VERIF, 'evidence')
+    if os.path.realpath(REPO) != '/repo':
+        # a run against a scratch copy (SQ_REPO, the mutation self-tests): /verif/evidence only ever describes /repo
+        evdir = os.path.join(REPO, '.verif_evidence')
+    os.makedirs(evdir, exist_ok=True)
+    path = os.path.join(evdir, prop.ID + '.json')
     tmp = path + '.tmp'
     with open(tmp, 'w') as f:
         json.dump(ev, f, indent=1, default=str)
